@@ -144,6 +144,9 @@ class MementoFunction(MementoFunctionBase):
 
     _hash_rules = None  # type: List[HashRule]
 
+    _cloned_from = None  # type: Optional[MementoFunctionType]
+    "If this function was produced by a modifier (clone_with), the function it was cloned from"
+
     def hash_rules(self) -> List[HashRule]:
         """Ordered list of hash rules from which the hash was computed"""
         self._update_dependencies()
@@ -340,7 +343,7 @@ class MementoFunction(MementoFunctionBase):
         version_salt: str = None,
     ) -> MementoFunctionType:
         """Re-constructs a clone of this function, modifying one or more attributes"""
-        return MementoFunction(
+        result = MementoFunction(
             fn=fn or self.fn,
             src_fn=src_fn or self.src_fn,
             cluster_name=cluster_name or self.cluster_name,
@@ -356,6 +359,10 @@ class MementoFunction(MementoFunctionBase):
             version_salt=version_salt or self._constructor_provided_version_salt,
             register_fn=False,
         )
+        # A clone pins the computed version as if it were explicit. Remember the function it
+        # was cloned from, so that dependency validation still applies to what it calls.
+        result._cloned_from = self._cloned_from or self
+        return result
 
     def call(self, *args, **kwargs):
         self._validate_dependency()
@@ -569,6 +576,8 @@ class MementoFunction(MementoFunctionBase):
             frame.memento.invocation_metadata.fn_reference_with_args.fn_reference
         )
         caller = cast(MementoFunctionType, caller_ref.memento_fn)
+        # A modifier clone (partial, force_local, ...) stands for the function it was cloned from
+        caller = getattr(caller, "_cloned_from", None) or caller
         if caller.explicit_version is not None:
             # Caller has declared version explicitly, so there is no need to worry that
             # dependencies were not detected properly. Carry on.
